@@ -16,7 +16,7 @@ use std::path::{Path, PathBuf};
 use std::rc::Rc;
 
 const FILES: [&str; 4] = ["r.ds", "d1/a.ds", "d1/d2/b.ds", "c.ds"];
-const BODY_LINES: usize = 3;
+const BODY_LINES: usize = 5;
 
 #[derive(Clone, Debug, PartialEq, Eq, Hash)]
 struct Spec {
@@ -82,7 +82,9 @@ fn file_text(fi: usize, tree: &Tree, fault: &Fault, root: &Path) -> FileText {
     let tag = ["r", "a", "b", "c"][fi];
     let mut lines: Vec<String> = (0..BODY_LINES)
         .map(|n| match n {
-            1 => format!("v_{} = set {}{}", tag, tag, n),
+            1 => String::new(),
+            2 => format!("v_{} = set {}{}", tag, tag, n),
+            3 => format!("  # a comment in {}", tag),
             _ => format!("emit {}{}", tag, n),
         })
         .collect();
@@ -104,7 +106,7 @@ fn file_text(fi: usize, tree: &Tree, fault: &Fault, root: &Path) -> FileText {
         let d = format!("!include_files {}", args.join(" "));
         let at = match spec.pos {
             0 => 0,
-            1 => 2,
+            1 => 3,
             _ => lines.len(),
         };
         lines.insert(at, d);
@@ -387,9 +389,10 @@ pub fn worker(w: &mut Worker) {
                                         // because exactly one fault is planted per case
                                         faults.push(Fault::Missing(fi, ai));
                                     }
-                                    for l in 0..BODY_LINES {
+                                    for l in [0usize, 2, 4] {
+                                        // the instruction lines (1 is blank, 3 a comment)
                                         faults.push(Fault::Malformed(fi, l));
-                                        if l != 1 {
+                                        if l != 2 {
                                             faults.push(Fault::Error(fi, l));
                                         }
                                     }
